@@ -1,6 +1,14 @@
 import ParryModel.C05.Theorems1
 import ParryModel.C05.Theorems2
 import ParryModel.C05.Theorems3
+import ParryModel.C05.Theorems4
+import ParryModel.C05.Theorems5
+import ParryModel.C05.Theorems6
+import ParryModel.C05.Theorems7
+import ParryModel.C05.Theorems8
+import ParryModel.C05.Theorems9
+import ParryModel.C05.Theorems10
+import ParryModel.C05.Theorems11
 /-!
 # C05 property theorems (umbrella file)
 
@@ -9,5 +17,14 @@ import ParryModel.C05.Theorems3
 * `Theorems2.lean` — growth: 3-D triangle, cone, 2-D capsule, Aabb/cuboid feature ids, composite glue.
 * `Theorems3.lean` — growth 2: the reported triangle location *contains* the projection (edge / face barycentric coordinates are
   non-negative, 2-D and 3-D), unconditional 2-D membership.
+* `Theorems4.lean` — fu4: oriented-TriMesh pseudo-normal sign test (face / edge / vertex), HeightField cell tiling, cell-range
+  completeness, triangle-id injectivity.
+* `Theorems5.lean` — fu4: tetrahedron vertex regions (returned + optimal) and `check_edge` (sound + optimal).
+* `Theorems6.lean` — fu4: `map_elements_in_local_aabb` loop structure (each cell of the range once), per-cell ids, y-cull soundness.
+* `Theorems7.lean` — fu4: `compute_pseudo_normals` is the angle-weighted sum; convex-inside half for the model's own vertex normal.
+* `Theorems8.lean` — fu4: nearest point on a height field (`project_local_point`, `_with_max_dist`), TriMesh query glue.
+* `Theorems9.lean` — fu4: height-field cell triangles are non-degenerate; tetrahedron vertex c / d branches.
+* `Theorems10.lean` — fu4: the edge pseudo-normals of `compute_pseudo_normals` are the sums of the normals of the faces sharing the edge.
+* `Theorems11.lean` — fu4: every triangle of `HeightField::triangles()` is non-degenerate; nearest-point theorem for an actual field.
 `./mkaudit C05` collects the public `theorem`s of every `Theorems*.lean`.
 -/
